@@ -110,6 +110,7 @@ def rule_gsrfs_table(mod, rep):
                     return (",".join(sorted(hit)),)
         lac = list(f.calls("%slacon_" % prec)); gem = list(f.calls("sp_%sgemv" % prec))
         stopset = set(x.i for x in lac + gem)
+        resid_bad = {}
         for tr, eq, kase in itertools.product(("NOTRANS", "TRANS", "CONJ"), ("NOEQUIL", "ROW", "COL", "BOTH"), (0, 1, 2)):
             part = RfsPart(trans=tr, equed=eq, kase=kase)
             part.args[kt] = ("c", e[tr]); part.args[kq] = ("c", e[eq])
@@ -125,7 +126,7 @@ def rule_gsrfs_table(mod, rep):
             if tr == "TRANS" and prec in "cz":
                 want = {"T"}
             if not gm or not gm <= want:
-                why.append("residual product uses op '%s', expected one of %s" % (",".join(sorted(gm)), sorted(want)))
+                resid_bad.setdefault(tr, ("residual product uses op '%s', expected one of %s" % (",".join(sorted(gm)), sorted(want)), [i for i, a in it.events if a[0] == "gemv"]))
             # estimator region events
             est = f.reach(lac, stop=lambda x: x.i in stopset)
             g_est = [(i, a) for i, a in it.events if a[0] == "gstrs" and i.i in est]
@@ -162,6 +163,13 @@ def rule_gsrfs_table(mod, rep):
             key = "%s#%s/%s/kase=%d" % (f.name, tr, eq, kase)
             site = (g_est[0][0].loc if g_est else (g_cor[0][0].loc if g_cor else f.file))
             rep.check(not why, "GSRFS", key, "transposes and scalings agree with (trans, equed, kase)", "; ".join(sorted(set(why))), site, f.name)
+        for tr in ("NOTRANS", "TRANS", "CONJ"):
+            if tr in resid_bad:
+                rep.fail("GSRFS", "%s#residual-op/%s" % (f.name, tr), "the residual B - op(A)*X is formed with the wrong op: " + resid_bad[tr][0] +
+                         (" (for a complex matrix A**T is not A**H: berr/ferr are computed for a different system)" if tr == "CONJ" else ""),
+                         resid_bad[tr][1][0].loc if resid_bad[tr][1] else f.file, f.name)
+            else:
+                rep.ok("GSRFS", "%s#residual-op/%s" % (f.name, tr), "residual uses the op matching trans", f.file, f.name)
         _kase_zeroed(mod, rep, f, "GSRFS")
         _refine_bound(mod, rep, f, prec)
 
@@ -209,3 +217,32 @@ def _refine_bound(mod, rep, f, prec):
                         ok = True
         rep.check(ok, "GSRFS", "%s#refine-reset" % f.name, "the iteration counter restarts at 0 for every right-hand side",
                   "the refinement counter is not reset per right-hand side (ITMAX budget shared across columns)", c.loc, f.name)
+
+
+def rule_refine_fresh(mod, rep):
+    """C13: berr/residual handed to the error bound belong to the X that is returned"""
+    rep.rule("R-FRESH", "?gsrfs: after every correction of X (the ?gstrs call in the refinement loop) the residual (sp_?gemv) and the store to berr[j] are executed "
+             "again before the forward-error estimator (?lacon_) starts or the routine returns: berr and the residual used for ferr belong to the returned X", floor=4)
+    for prec, f in fam(mod, "?gsrfs"):
+        lac = list(f.calls("%slacon_" % prec)); gem = list(f.calls("sp_%sgemv" % prec))
+        kb = f.pindex("berr")
+        bst = [s for s in f.insts() if s.op == "store" and (("A", kb), ("i",)) in f.addr_paths(s)]
+        est = f.reach(lac, stop=lambda x: x in lac or x in gem)
+        cor = [c for c in f.calls("%sgstrs" % prec) if c.i not in est]
+        why = []
+        if not cor or not gem or not bst or not lac:
+            why.append("anchor missing (correction solve %d, residual %d, berr stores %d, estimator %d)" % (len(cor), len(gem), len(bst), len(lac)))
+        for c in cor:
+            r = f.reach([c], stop=lambda x: x in gem)
+            hit = [f.inst[x] for x in r if f.inst[x] in lac or f.inst[x].op == "ret"]
+            if hit:
+                why.append("the estimator/return at %s is reachable from the correction at %s without recomputing the residual" % (hit[0].loc, c.loc))
+            r = f.reach([c], stop=lambda x: x in bst and not _is_zero_store(x))
+            hit = [f.inst[x] for x in r if f.inst[x] in lac or f.inst[x].op == "ret"]
+            if hit:
+                why.append("the estimator/return at %s is reachable from the correction at %s without recomputing berr[j]" % (hit[0].loc, c.loc))
+        rep.check(not why, "R-FRESH", "%s#fresh" % f.name, "residual and berr are recomputed after the last correction", "; ".join(sorted(set(why))), cor[0].loc if cor else f.file, f.name)
+
+
+def _is_zero_store(s):
+    return s.ops[0][0] == "f" and s.ops[0][1] == 0.0
